@@ -30,7 +30,7 @@ ASSUMPTIONS = [
     "hash-seed sweep: 3 seeds quick, 8 thorough, corpus of 300/1500 expressions",
 ]
 BUDGET = {
-    "quick": dict(examples=400, shards=16, seconds=200),
+    "quick": dict(examples=1000, shards=16, seconds=200),
     "thorough": dict(examples=10000, shards=16, seconds=2400),
 }
 ESSENTIAL_LABELS = {t: ["tie:same-first-child", "factors>=3", "has:frac", "mixed-P-PP"] for t in ("quick", "thorough")}
